@@ -20,23 +20,27 @@ pub enum Lk {
     /// the same label was sent just before with re-use enabled: the first fragment's label is
     /// expected to be replaced by re-use (whatever the encapsulator decides is followed)
     AfterSame(Lbl),
+    /// the same label was sent, then a PDU with ANOTHER label went out through encap_ext (header extension), as a
+    /// complete packet (false) or as a first fragment whose train stays unfinished (true): both ends remember the other label
+    AfterSameThenExt(Lbl, bool),
 }
 
 impl Lk {
     pub fn label(self) -> Lbl {
         match self {
-            Lk::Plain(l) | Lk::AfterSame(l) => l,
+            Lk::Plain(l) | Lk::AfterSame(l) | Lk::AfterSameThenExt(l, _) => l,
         }
     }
     pub fn name(self) -> String {
         match self {
             Lk::Plain(l) => l.short().split(':').next().unwrap().to_string(),
             Lk::AfterSame(l) => format!("{}-after-same", l.short().split(':').next().unwrap()),
+            Lk::AfterSameThenExt(l, f) => format!("{}-after-same-then-ext-other-{}", l.short().split(':').next().unwrap(), if f { "first" } else { "complete" }),
         }
     }
 }
 
-pub const LKS: [Lk; 5] = [Lk::Plain(L6A), Lk::Plain(L3A), Lk::Plain(Lbl::Bcast), Lk::AfterSame(L6A), Lk::AfterSame(L3A)];
+pub const LKS: [Lk; 7] = [Lk::Plain(L6A), Lk::Plain(L3A), Lk::Plain(Lbl::Bcast), Lk::AfterSame(L6A), Lk::AfterSame(L3A), Lk::AfterSameThenExt(L6A, false), Lk::AfterSameThenExt(L6A, true)];
 
 #[derive(Clone, Debug, PartialEq, Eq, Hash)]
 pub enum Tx {
@@ -97,6 +101,29 @@ impl Case {
         let mut enc = Encapsulator::new(DefaultCrc {});
         let st = self.storage.max(1);
         let mut rx = RxS::new(2, st, &[st, st]);
+        if let Lk::AfterSameThenExt(l, frag) = self.lk {
+            // room for the unfinished 12-byte train of the other label next to the PDU of the case
+            let st2 = st.max(12);
+            rx = RxS::new(2, st2, &[st2, st2]);
+            let other = if l == L6A { L6B } else { L6A };
+            let big = [0x55u8; 12];
+            let mut scratch = [0u8; 64];
+            let o = do_encap(&mut enc, &[0x42], 0, 0x0800, l, &mut scratch);
+            let mut pkts = vec![scratch[..o.len().unwrap_or(0).min(64)].to_vec()];
+            let o2 = if frag {
+                do_encap_ext(&mut enc, &big, self.frag_id.wrapping_add(101), 0x0800, other, &mut scratch[..17], &[(0x0101, vec![])])
+            } else {
+                do_encap_ext(&mut enc, &[0x43], 0, 0x0800, other, &mut scratch, &[(0x0101, vec![])])
+            };
+            pkts.push(scratch[..o2.len().unwrap_or(0).min(64)].to_vec());
+            for q in pkts {
+                let (out, mut rx2) = step_decap(&rx, &DefaultCrc {}, &TableMgr::none(), &q);
+                if let DecapOut::Completed { buf, .. } = out {
+                    rx2.mem.free.push(vec![0u8; buf.len()]);
+                }
+                rx = rx2;
+            }
+        }
         if let Lk::AfterSame(l) = self.lk {
             let mut scratch = [0u8; 32];
             let o = do_encap(&mut enc, &[0x42], 0, 0x0800, l, &mut scratch);
@@ -303,7 +330,7 @@ fn small(rep: &Report, tier: Tier) {
             for fid in fids {
                 for storage in [p, p + 5] {
                     // receiver prior states: all three for one fragment id per cell, fresh only for the id sweep
-                    let rxps: Vec<RxPrior> = if p == 5 && fid > 2 { vec![RxPrior::Fresh] } else { RX_PRIORS.to_vec() };
+                    let rxps: Vec<RxPrior> = if (p == 5 && fid > 2) || matches!(lk, Lk::AfterSameThenExt(..)) { vec![RxPrior::Fresh] } else { RX_PRIORS.to_vec() };
                     for rx_prior in rxps {
                         let pat = ((p + li + storage) % 4) as u8;
                         let mut bufs: Vec<usize> = (0..=p + 24).collect();
@@ -375,10 +402,10 @@ fn large(rep: &Report, tier: Tier) {
     bufs_full.extend([5000, 65535, 65536, 65537, 65586, 66000, 69632, 69633, 70000]);
     // (PDU length, label kind, sparse): sparse cases (quick tier, PDUs beyond 32 KiB and at the 16-bit limit) use a
     // buffer alphabet without tiny buffers and visit only the positions actually reachable with it
-    let mut cases: Vec<(usize, Lk, bool)> = ps.iter().flat_map(|&p| LKS.iter().map(move |&lk| (p, lk, false))).collect();
+    let mut cases: Vec<(usize, Lk, bool)> = ps.iter().flat_map(|&p| LKS[..5].iter().map(move |&lk| (p, lk, false))).collect();
     if !tier.thorough() {
         for &p in &[32767usize, 33000, 40000, 65533 - 6, 65533 - 3, 65533] {
-            for &lk in LKS.iter() {
+            for &lk in LKS[..5].iter() {
                 cases.push((p, lk, true));
             }
         }
